@@ -52,22 +52,23 @@ Proof.
   vm_compute. split; reflexivity.
 Qed.
 
-(* class 3: integer primary key + secondary index -- undo adds a key without the row-id suffix *)
+(* class 3: UPDATE of the column of a secondary index -- UPDATE replaces the index entry
+   `old value ++ row id` by `new value ++ row id`, undo restores the row but not the entry: the
+   lookup by the restored value misses the row (any kind of key) *)
 Lemma rollback_secidx_refuted_l :
   exists sch p body v, lookup1 sch (rolled_back sch (reach sch p) body) v <> lookup1 sch (reach sch p) v.
 Proof.
-  exists (mkSchema KPk KInt true false), [OIns [R (i 5) (i 1); R (i 6) (i 2)]], [OUpd C1 (i 2) (Some (C0, i 5))], (i 1).
+  exists (mkSchema KPk KText true false), [OIns [R (tx [97]) (i 1); R (tx [98]) (i 2)]], [OUpd C1 (i 3) (Some (C0, tx [97]))], (i 1).
   vm_compute. discriminate.
 Qed.
 
-(* class 4: UPDATE that touches a tombstone, integer primary key -- undo re-creates the index entry
-   of the deleted row *)
-Lemma rollback_tombstone_refuted_l :
-  exists sch p body r, ins_ok sch (rolled_back sch (reach sch p) body) r = false /\ ins_ok sch (reach sch p) r = true.
+(* ... with an integer primary key undo additionally files the old value under a key WITHOUT the
+   row-id suffix, which index scans read back as row id = the column value *)
+Lemma rollback_secidx_intpk_refuted_l :
+  exists sch p body v, lookup1 sch (rolled_back sch (reach sch p) body) v <> lookup1 sch (reach sch p) v.
 Proof.
-  exists (mkSchema KPk KInt false false), [OIns [R (i 5) (i 1); R (i 6) (i 2)]; ODel (Some (C0, i 5))],
-         [OUpd C1 (i 3) (Some (C1, i 1))], (R (i 5) (i 9)).
-  vm_compute. split; reflexivity.
+  exists (mkSchema KPk KInt true false), [OIns [R (i 5) (i 3); R (i 6) (i 2)]], [OUpd C1 (i 2) (Some (C0, i 5))], (i 3).
+  vm_compute. discriminate.
 Qed.
 
 (* class 5: a multi-row INSERT that fails at its second row -- the first row was written without
@@ -79,15 +80,18 @@ Proof.
   vm_compute. discriminate.
 Qed.
 
-(* class 7: the row ids consumed by the rolled-back INSERT shift later row ids; index entries
-   written by UPDATE hold a key value in place of a row id, so a later lookup resolves differently *)
+(* class 7: the row ids consumed by the rolled-back INSERT shift later row ids; an index entry
+   written by an EARLIER undo holds a key value in place of a row id, and the uniqueness check of a
+   later key UPDATE compares that stored value with a row id: the same statement is refused without
+   the rolled-back transaction and accepted with it *)
 Lemma rollback_rowid_refuted_l :
-  exists sch p body tail v,
-    lookup0 sch (fst (run sch tail (rolled_back sch (reach sch p) body, None))) v
-    <> lookup0 sch (fst (run sch tail (reach sch p, None))) v.
+  exists sch p body tail o,
+    fst (exec sch o (run sch tail (rolled_back sch (reach sch p) body, None)))
+    <> fst (exec sch o (run sch tail (reach sch p, None))).
 Proof.
-  exists (mkSchema KPk KInt false false), [OIns [R (i 1) (i 1)]; OUpd C0 (i 3) (Some (C0, i 1))],
-         [OIns [R (i 7) (i 7)]], [OIns [R (i 8) (i 8)]], (i 3).
+  exists (mkSchema KPk KInt false false),
+         [OIns [R (i 3) (i 1)]; OBegin; ODel (Some (C0, i 3)); ORollback],
+         [OIns [R (i 7) (i 7)]], [OIns [R (i 9) (i 9)]], (OUpd C0 (i 3) (Some (C0, i 9))).
   vm_compute. discriminate.
 Qed.
 
